@@ -312,6 +312,22 @@ def _returns(body):
     return [n for n in walk(body, prune=lambda x: x.get("k") == "Lambda") if n.get("k") == "Return"]
 
 
+def fold_guard_returns(stmts):
+    """`if(c) return; rest...` (void function, no else) at the top level of a body -> `if(!c) { rest... }`, repeatedly; a trailing plain
+    `return;` is dropped.  Returns the new statement list (copies where changed); other returns are left alone."""
+    stmts = list(stmts)
+    while stmts and stmts[-1].get("k") == "Return" and stmts[-1].get("e") is None:
+        stmts.pop()
+    for i, s_ in enumerate(stmts):
+        if s_.get("k") == "If" and s_.get("else") is None:
+            th = stmts_of(s_.get("then"))
+            if len(th) == 1 and th[0].get("k") == "Return" and th[0].get("e") is None:
+                rest = fold_guard_returns(stmts[i + 1:])
+                neg = {"k": "Un", "op": "!", "e": s_["c"], "l": s_.get("l"), "t": s_["c"].get("t")}
+                return stmts[:i] + [{"k": "If", "l": s_.get("l"), "c": neg, "then": {"k": "Block", "l": s_.get("l"), "s": rest}, "norm": True}]
+    return stmts
+
+
 class Inliner:
     def __init__(self, facts, want, max_depth=3):
         self.facts = facts
@@ -322,29 +338,40 @@ class Inliner:
 
     def body_of(self, call, chain, need_value):
         """-> (prefix statements, value expression or None) or None if the call is not inlined"""
-        if call.get("k") not in ("Call", "MCall") or len(chain) >= self.max_depth:
+        if call.get("k") not in ("Call", "MCall", "OpCall") or len(chain) >= self.max_depth:
             return None
         g = callee_function(self.facts, call)
-        if g is None or g.d.get("virtual") or g.full in chain or not self.want(call, g):
+        is_lambda = call.get("k") == "OpCall"
+        if is_lambda:
+            # only the call operator of a lambda (func(args) on a closure object defined in the same file)
+            if call.get("op") != "()" or call.get("ccls") != "<lambda>" or g is None or not call.get("a"):
+                return None
+        if g is None or g.d.get("virtual") or g.full in chain or (not is_lambda and not self.want(call, g)):
             return None
         if call.get("k") == "MCall":
             o = strip_cast(call.get("obj")) if call.get("obj") is not None else None
             if o is not None and o.get("k") != "This":
                 return None
-        args = call.get("a", [])
+        args = call.get("a", [])[1:] if is_lambda else call.get("a", [])
         if len(args) != len(g.params):
             return None
-        rets = _returns(g.body)
-        top = stmts_of(g.body)
+        gbody = g.body
+        if not need_value:
+            # early `if(c) return;` guards of a void helper are nested instead
+            folded = fold_guard_returns(stmts_of(gbody))
+            if len(_returns({"k": "Block", "s": folded})) < len(_returns(gbody)):
+                gbody = {"k": "Block", "s": folded, "l": gbody.get("l")}
+        rets = _returns(gbody)
+        top = stmts_of(gbody)
         if need_value:
             if len(rets) != 1 or not top or top[-1] is not rets[0] or rets[0].get("e") is None:
                 return None
         else:
             if len(rets) > 1 or (rets and (not top or top[-1] is not rets[0])):
                 return None
-        if any(n.get("k") in ("Try", "Lambda") for n in walk(g.body)):
+        if any(n.get("k") in ("Try", "Lambda") for n in walk(gbody)):
             return None
-        body = copy.deepcopy(g.body)
+        body = copy.deepcopy(gbody)
         ctx = Ctx(body)
         # rename the callee's own locals per call site
         ren = {}
@@ -401,7 +428,7 @@ class Inliner:
 
     def stmt(self, s, chain):
         k = s.get("k")
-        if k in ("Call", "MCall"):
+        if k in ("Call", "MCall") or (k == "OpCall" and s.get("op") == "()"):
             r = self.body_of(s, chain, False)
             if r is not None:
                 return [{"k": "Block", "l": s.get("l"), "s": r[0], "inlined": s.get("cfull") or s.get("callee")}]
